@@ -125,7 +125,16 @@ def gen(ctx, progs, n):
 def run_flavor(ctx, name, src, defs, progs, n, conf=True):
     impl = build_scenario(ctx, name, src, extra_src=G.SRCS, defs=defs)
     if not impl: return
-    cases = gen(ctx, progs, n)
+    cases = gen(ctx, progs, n) if 'nofutex' not in name else []
+    if 'nofutex' in name:
+        # compat fallback (mutex + condition variable): the sleeper frozen at every step of its way to sleep - in particular between its check of the word under
+        # the lock and its pthread_cond_wait - while the reader it waits for leaves and sends the wake-up; also with a second sleeper
+        fam = (('Q/S', ''), ('Q/S/S', '')) if 'qsbr' in name else (('()/S/S', '>0'), ('()/S/S/S', '>0'))
+        for prog, first in fam:
+            for k in range(0, 110 if ctx.quick() else 300, 1):
+                cases.append((prog, first + '1b' * k + '>0' + '1b' * 300 + '2c' * 300))
+                if k % 2 == 0 and prog.count('/') > 1: cases.append((prog, first + '1b' * 70 + '2c' * k + '>0' + '1b' * 300 + '2c' * 300))
+        rnd = gen(ctx, progs, n); cases += rnd[-max(n // 2, 100):]        # the random part (bursty schedules with fault choices)
     tail = ''.join(chr(ord('a') + i) + str(i) for i in range(6)) * 500
     rs = run_many([[impl, p, s + tail] for p, s in cases], timeout=30)
     nor = 0; slept = 0
@@ -135,7 +144,7 @@ def run_flavor(ctx, name, src, defs, progs, n, conf=True):
         if o:
             nor += 1
             if nor <= 3: ctx.fail('oracle', 'completion oracle (%s)' % name, o, concrete={'scenario': name, 'prog': p, 'schedule': s + tail, 'verdict': o})
-        if '-> sleep' in raw: slept += 1
+        if '-> sleep' in raw or ' cond_wait ' in raw: slept += 1
         if len(ctx.cov['samples']) < 3 and '-> sleep' in raw: ctx.cov['samples'].append({'scenario': name, 'prog': p, 'schedule': s[:80]})
     ctx.cov['evaluations'] += len(cases); ctx.cov['distinct_nontrivial'] += slept
     ctx.cov['oracle_violations'] = ctx.cov.get('oracle_violations', 0) + nor
@@ -153,6 +162,9 @@ def run(ctx):
     run_flavor(ctx, 'scen_gp_mb_a1', 'scen_gp.c', A1 + ['-DFLAVOR_MB'], PROGS, n // 2)
     run_flavor(ctx, 'scen_qsbr_a1', 'scen_qsbr.c', A1, QPROGS, n, conf=False)
     run_flavor(ctx, 'scen_gp_memb_enosys', 'scen_gp.c', A1 + ['-DFUTEX_ENOSYS'], PROGS[:2], n // 3, conf=False)
+    # the platform without a futex system call: futex_noasync() is compat_futex_noasync() (mutex + condition variable) - qsbr grace-period futex, wait-node futex of merged callers
+    run_flavor(ctx, 'scen_qsbr_nofutex', 'scen_qsbr.c', A1 + ['-DVERIF_NO_FUTEX'], QPROGS[:2], n // 6, conf=False)
+    run_flavor(ctx, 'scen_gp_memb_nofutex', 'scen_gp.c', A1 + ['-DVERIF_NO_FUTEX'], PROGS[:2], n // 6, conf=False)
     return finish(ctx, trusted=TRUSTED, rule='Step/Flush/Spurious/EINTR schedules: parking sweeps (step and operation level) + bursty random with fault choices; 1-3 concurrent synchronize_rcu() callers; '
                   'RCU_QS_ACTIVE_ATTEMPTS and URCU_WAIT_ATTEMPTS overridden to 1 or 2 so that the sleep paths run; non-trivial = some thread actually slept on a futex; '
                   'traces_validated = runs whose program order conforms to the model (dec;barrier;scan;barrier;load before FUTEX_WAIT; ctr store before futex load)')
